@@ -291,7 +291,7 @@ class _DateLocaleParser:
                 date_obj=date_obj,
                 period=period,
             )
-        except ValueError:
+        except (OverflowError, ValueError):
             self._settings.DATE_ORDER = _order
             return None
 
